@@ -28,13 +28,16 @@ SignFails(e) ==
   (IF o.res = "panic" THEN {"panic"} ELSE {})
   \cup (IF fe > 0 /\ o.res # "ErrInjected" THEN {"signer-error-not-returned"} ELSE {})
   \cup (IF o.res # "ok" /\ ~o.outnil THEN {"bytes-returned-together-with-an-error"} ELSE {})
-  \cup (IF Len(signs) # (IF fe > 0 THEN fe ELSE n) THEN {"signer-call-discipline"} ELSE {})
   \cup (IF Returning(e.shape) /\ e.shape # "cs0" /\ (\E i \in 1..n : fs[i] # "") /\ (o.res = "ok" \/ ~o.outnil) THEN {"helper-returns-message-despite-faulty-signer"} ELSE {})
   \cup (IF Returning(e.shape) /\ e.shape # "cs0" /\ o.res = "ok" /\ ~WFCose(KindOfShape(e.shape), o.out) THEN {"helper-output-not-a-wellformed-signed-message"} ELSE {})
-  \cup (IF ~Returning(e.shape) /\ Len(signs) = (IF fe > 0 THEN fe ELSE n) THEN
-          LET sl == Slots(e, o) IN
-          IF \E j \in 1..Len(sl) : sl[j] # (IF fe > 0 /\ j >= fe THEN <<>> ELSE signs[j].ret)
-          THEN {"signature-slots-not-as-required-after-failure"} ELSE {}
+  \* slot j holds what signer j returned without error, and nothing if signer j failed or was never asked
+  \* (whether signers after a failing one are still asked is not fixed by the property)
+  \cup (IF ~Returning(e.shape) THEN
+          LET sl == Slots(e, o)
+              CallOf(j) == SelectSeq(signs, LAMBDA c : c.who = ("k" \o ToString(j)))
+              Want(j) == IF ErrFault(fs[j]) \/ CallOf(j) = <<>> THEN {<<>>}
+                         ELSE IF fe > 0 /\ j > fe THEN {<<>>, CallOf(j)[1].ret} ELSE {CallOf(j)[1].ret}
+          IN IF \E j \in 1..Len(sl) : sl[j] \notin Want(j) THEN {"signature-slots-not-as-required-after-failure"} ELSE {}
         ELSE {})
   \cup (IF HasMarshal(e) THEN
           LET m == e.obs[OpIdx(e) + 1] sl == Slots(e, o) IN
